@@ -385,6 +385,14 @@ def onObs (t : T) (x : Obs) : T :=
     let t := { t with afterPeret := false }
     let t := t.modSrc k fun a => { a with lastRet := none }
     let t := t.flagIf t.idlePhase .C13 s!"source {k} processed events after an idle callback of the same dispatch"
+    -- C06 / C01: a source that has been removed (by itself on an earlier event of this batch, or by another source) is not
+    -- handed the events that were already collected for it
+    let t := match t.src k with
+      | some (a : ASrc) =>
+        let gone : Bool := a.status == Status.absent && a.everInserted
+        let t := t.flagIf gone .C06 s!"process_events of source {k} was called after the source had been removed"
+        t.flagIf gone .C01 s!"an event was dispatched to source {k}, which is not inserted any more"
+      | none => t
     -- C14: every due lifecycle source had its hooks before any event processing
     let t := t.srcs.foldl (fun (t : T) ((j, a) : Nat × ASrc) =>
       if a.lifeDue && !t.bsFailed && (a.bsSeen != 1 || a.bheSeen != 1) && !t.hooksDone then
